@@ -53,6 +53,68 @@ def witness_spill_mixed_types():
     return prep, main
 
 
+def directed_cases():
+    """hand-written canonical call shapes, run over every version/option combination"""
+    L = lambda e: ("op", "log", (), "n", (("op", "itob", (), "b", (e,)),))
+    ld = lambda k: ("op", "load", (("slot", k),), "u", ())
+    st = lambda k, e: ("op", "store", (("slot", k),), "n", (e,))
+    add = lambda *a: ("nary", "+", "u", tuple(a))
+    sub = lambda a, b: ("op", "-", (), "u", (a, b))
+    eq = lambda a, b: ("op", "==", (), "u", (a, b))
+    out = []
+
+    def case(name, defs, main):
+        def prep(b, defs=defs):
+            for d in defs:
+                b.define_sub(*d)
+        out.append((name, prep, ("seq",) + tuple(main) + (("exit", I_(1)),)))
+
+    # by-reference, forwarded through a second routine, used twice
+    case("byref-forward",
+         [("inner", "inner", "n", "r", ("refstore", 0, add(("refload", 0, "u"), I_(1)))),
+          ("outer", "outer", "n", "r", ("seq", ("call", "inner", (("paramref", 0),)), ("call", "inner", (("paramref", 0),))))],
+         [st("x", I_(40)), st("y", I_(7)), ("call", "outer", (("varref", "x"),)), ("call", "inner", (("varref", "y"),)), L(ld("x")), L(ld("y"))])
+    # by-reference swap of two variables + by-value mixed
+    case("byref-swap",
+         [("swap", "swap", "n", "rr", ("seq", st("t", ("refload", 0, "u")), ("refstore", 0, ("refload", 1, "u")), ("refstore", 1, ld("t")))),
+          ("mix", "mix", "u", "vrv", ("seq", ("refstore", 1, add(("refload", 1, "u"), P(0))), ("return", sub(P(2), P(0)))))],
+         [st("a", I_(1)), st("b", I_(2)), ("call", "swap", (("varref", "a"), ("varref", "b"))), L(ld("a")), L(ld("b")),
+          L(("call", "mix", (I_(3), ("varref", "a"), I_(10)))), L(ld("a"))])
+    # recursion with a live local, result combined after the call (spill/restore), call in operand position
+    case("rec-local",
+         [("tri", "tri", "u", "v", ("seq", st("keep", P(0)), ("if", eq(P(0), I_(0)), ("return", I_(0)),
+                                                               ("return", add(("call", "tri", (sub(P(0), I_(1)),)), ld("keep"))))))],
+         [L(sub(I_(1000), ("call", "tri", (I_(4),)))), L(("call", "tri", (I_(0),)))])
+    # recursion, two locals, two arguments, none-typed with logs
+    case("rec-none-2args",
+         [("walk", "walk", "n", "vv", ("seq", st("k1", add(P(0), P(1))), st("k2", sub(I_(100), P(0))),
+                                       ("if", eq(P(0), I_(0)), ("return",), ("seq", ("call", "walk", (sub(P(0), I_(1)), add(P(1), I_(2)))), L(ld("k1")), L(ld("k2"))))))],
+         [("call", "walk", (I_(3), I_(5)))])
+    # mutual recursion between a value-returning and a none routine with locals
+    case("mutual-mixed",
+         [("ev", "ev", "u", "v", ("seq", st("e1", add(P(0), I_(200))), ("if", eq(P(0), I_(0)), ("return", I_(1)),
+                                                                         ("seq", ("call", "od", (sub(P(0), I_(1)),)), ("return", ld("e1")))))),
+          ("od", "od", "n", "v", ("seq", st("o1", add(P(0), I_(100))), ("if", eq(P(0), I_(0)), ("return",),
+                                                                        ("seq", ("op", "pop", (), "n", (("call", "ev", (sub(P(0), I_(1)),)),)), L(ld("o1"))))))],
+         [("call", "od", (I_(3),)), L(("call", "ev", (I_(2),)))])
+    # early returns at several positions, Approve inside a routine
+    case("early-return",
+         [("pick", "pick", "u", "v", ("seq", ("if", eq(P(0), I_(1)), ("return", I_(11))), ("if", eq(P(0), I_(2)), ("seq", L(I_(22)), ("return", I_(12)))),
+                                      ("if", eq(P(0), I_(9)), ("exit", I_(1))), ("return", I_(13))))],
+         [L(("call", "pick", (I_(1),))), L(("call", "pick", (I_(2),))), L(("call", "pick", (I_(3),))), L(add(I_(5), ("call", "pick", (I_(2),)))),
+          ("op", "pop", (), "n", (("call", "pick", (I_(9),)),)), L(I_(99))])
+    # nested calls as arguments, left-to-right evaluation of arguments with effects
+    case("nested-args",
+         [("eff", "eff", "u", "v", ("seq", L(P(0)), ("return", add(P(0), I_(1))))),
+          ("three", "three", "u", "vvv", ("return", sub(add(P(0), P(2)), P(1))))],
+         [L(("call", "three", (("call", "eff", (I_(10),)), ("call", "eff", (I_(20),)), ("call", "eff", (("call", "eff", (I_(30),)),)))))])
+    # bytes-returning routine, zero arguments, odd name
+    case("bytes-noargs",
+         [("greet", "say hi!", "b", "", ("return", ("nary", "concat", "b", (("op", "byte", ("0x6869",), "b", ()), ("op", "itob", (), "b", (I_(7),))))))],
+         [("op", "log", (), "n", (("call", "greet", ()),)), ("op", "log", (), "n", (("nary", "concat", "b", (("call", "greet", ()), ("call", "greet", ()))),))])
+    return out
+
+
 def call_edges(recipe, acc):
     if isinstance(recipe, tuple):
         if recipe and recipe[0] == "call":
@@ -182,7 +244,16 @@ def main(argv):
             else:
                 semfails.append({"kind": "semantic", "case": c.describe(), "ctx": sx(ctx), "avm": repr(a)[:2000], "denote": repr(d)[:2000]})
 
-    # 2. seeded random call graphs
+    # 2. directed call shapes over the whole version/option matrix
+    for name, prep, mainr in directed_cases():
+        for version in ([4, 5, 6, 7, 8, 9, 10] if thorough else [5, 6, 8, 9, 10]):
+            if version < 5 and name.startswith("byref"):
+                continue
+            for ss in (None, True, False):
+                for fp in ((None, False, True) if version >= 8 else (None,)):
+                    consider(compile_case(pt, model, mainr, version, True, ss, fp, prepare=prep), 1)
+
+    # 3. seeded random call graphs
     n = 5000 if thorough else 500
     for i in range(n):
         version = rng.choice([4, 5, 6, 7, 8, 8, 9, 10])
